@@ -1056,6 +1056,36 @@ class Executor:
                 arr[d.off + i] = src[i]
                 path.log.append(("w", d.obj, d.path + (d.off + i,)))
             return n
+        if name == "append":
+            d, s_ = args
+            if isinstance(s_, str):
+                raise ExecError("append of string")
+            if d is None:
+                d = SliceV(None, (), 0, 0, 0)
+            if any(type(v) is not int for v in (d.len, d.cap, s_.len)) or (d.obj is not None and type(d.off) is not int):
+                raise ExecError("append with symbolic length/capacity")
+            n = s_.len
+            if n == 0:
+                return d
+            sc = self._walk(path, Ptr(s_.obj, s_.path))
+            src = [clone_cells(x) for x in sc[0][sc[1]][s_.off:s_.off + n]]
+            if d.obj is not None and d.len + n <= d.cap:
+                # spare capacity: Go writes the new elements into the existing backing array
+                dc = self._walk(path, Ptr(d.obj, d.path))
+                arr = dc[0][dc[1]]
+                for i in range(n):
+                    arr[d.off + d.len + i] = src[i]
+                    path.log.append(("w", d.obj, d.path + (d.off + d.len + i,)))
+                return SliceV(d.obj, d.path, d.off, d.len + n, d.cap)
+            old = []
+            if d.obj is not None and d.len:
+                dc = self._walk(path, Ptr(d.obj, d.path))
+                old = [clone_cells(x) for x in dc[0][dc[1]][d.off:d.off + d.len]]
+            cells = old + src
+            oid = next(self._ids)
+            self.meta[oid] = ObjMeta(oid, ("array", len(cells), None), "append", "", "heap")
+            path.heap[oid] = [cells]
+            return SliceV(oid, (), 0, len(cells), len(cells))
         raise ExecError("builtin " + name)
 
 
